@@ -22,19 +22,19 @@ type presp struct {
 }
 
 type member struct {
-	s    *Solver
-	in   chan pquery
-	out  chan presp
-	busy bool
-	wins int
+	s       *Solver
+	in      chan pquery
+	out     chan presp
+	busy    bool
+	wins    int
 	closing bool
 }
 
 type Portfolio struct {
-	ms    []*member
-	stats SolverStats
-	Wins  map[string]int
-	stagger time.Duration
+	ms       []*member
+	stats    SolverStats
+	Wins     map[string]int
+	stagger  time.Duration
 	deadline time.Time // after this instant every query is answered unknown (instance time budget)
 }
 
